@@ -1131,7 +1131,13 @@ class HfProtocol(utils.EventEmitter):
             if not self._slc_initialized:
                 await self.initiate_slc()
             while True:
-                await self.handle_unsolicited()
+                try:
+                    await self.handle_unsolicited()
+                except HfProtocol.HfLoopTermination:
+                    raise
+                except Exception:
+                    # A malformed unsolicited result code must not end the routine
+                    logger.exception('Error while handling unsolicited result code')
         except HfProtocol.HfLoopTermination:
             logger.info('Loop terminated')
         except Exception:
